@@ -1,10 +1,925 @@
-// Package c11 holds the runtime monitors for property C11 (see DESIGN.md section 4).
+// Package c11 monitors property C11: concurrent sink invocations are isolated
+// and every failure is reported for its own event (DESIGN.md section 4, C11).
+//
+// One ECAL program with four sinks (sa: c11.a, sall: c11.*, sb: c11.b, sfan:
+// c11.fan) is loaded into a fresh interpreter per scenario. Every sink body
+// copies event.state.id into locals (plain and `let`), calls a shared global
+// pure function, loops, re-checks the locals, echoes everything through the Go
+// function c11.rec and then raises (type T<id>, detail id, data [id, sink]) or
+// not as the event payload dictates. The oracle is a per-invocation
+// expectation table keyed by the event id (unique per scenario); it is written from the
+// property statement only and shares no logic with /repo.
 package c11
 
-import "verif/harness/core"
+import (
+	"fmt"
+	"math"
+	"reflect"
+	"runtime"
+	"sort"
+	"strconv"
+	"strings"
+	"sync"
+	"sync/atomic"
+	"time"
+
+	"github.com/krotik/ecal/engine"
+	"github.com/krotik/ecal/parser"
+	"github.com/krotik/ecal/stdlib"
+	"github.com/krotik/ecal/util"
+	"github.com/krotik/ecal/verifhook"
+
+	"verif/harness/c11kit"
+	"verif/harness/core"
+	"verif/harness/sched"
+)
 
 func init() { core.Register("C11", Run) }
 
+const (
+	nSinks = 4
+	nFan   = 64
+
+	kA   = 0
+	kB   = 1
+	kFan = 2
+)
+
+var sinkNames = [nSinks]string{"sa", "sall", "sb", "sfan"}
+var sinkPrio = [nSinks]int{1, 5, 9, 0}
+var sinkKind = [nSinks]string{"c11.a", "c11.*", "c11.b", "c11.fan"}
+var kindNames = [3]string{"c11.a", "c11.b", "c11.fan"}
+var kindSegs = [3][]string{{"c11", "a"}, {"c11", "b"}, {"c11", "fan"}}
+
+// kindRules is the reference trigger table: for an event kind the sinks that
+// match it, in priority order (all priorities differ, so the order is defined).
+var kindRules = [3][]int{{0, 1}, {1, 2}, {3, 1}}
+
+func sinkIndex(name string) int {
+	for i, n := range sinkNames {
+		if n == name {
+			return i
+		}
+	}
+	return -1
+}
+
+// program returns the ECAL text; l is the loop count of the sink bodies.
+func program(l int) string {
+	var b strings.Builder
+	b.WriteString("func c11f(x) {\n    let y := x * 2\n    return y + 1\n}\n")
+	for k := 0; k < nSinks; k++ {
+		fmt.Fprintf(&b, "sink %s\n    kindmatch [ %q ],\n    priority %d\n{\n", sinkNames[k], sinkKind[k], sinkPrio[k])
+		if k == 3 {
+			// the fan-out is unrolled: a loop body gets a fresh instance state and
+			// would detach the children from the cascade of the triggering event
+			for i := 0; i < nFan; i++ {
+				fmt.Fprintf(&b, "    addEvent(event.state.n%d, event.state.k%d, event.state.s%d)\n", i, i, i)
+			}
+		}
+		fmt.Fprintf(&b, `    a := event.state.id
+    let b := event.state.id
+    fa := c11f(a)
+    s := 0
+    for i in range(1, %d) {
+        let q := a + i
+        s := s + (q - a)
+        if a != event.state.id or b != a {
+            s := -1000000
+        }
+    }
+    fb := c11f(b + s)
+    c11.rec(%d, event.state.id, a, b, fa, fb, s, event.name, event.kind)
+    if event.state.f%d {
+        raise(event.state.et, a, [b, %d])
+    }
+}
+`, l, k, k, k)
+	}
+	return b.String()
+}
+
+// evState is the expectation and the observation record of one event.
+type evState struct {
+	id   float64
+	name string
+	kind int
+	fail [nSinks]bool
+	et   string
+	kids []*evState // fan root only
+
+	begun [nSinks]int32 // sink.begin hook passages (atomic)
+	ret   [nSinks]int32 // sink.beforereturn hook passages (atomic)
+	echo  [nSinks]int32 // c11.rec calls (atomic)
+
+	mu  sync.Mutex
+	bad []string // echo mismatches
+}
+
+func (st *evState) addBad(s string) {
+	st.mu.Lock()
+	if len(st.bad) < 4 {
+		st.bad = append(st.bad, s)
+	}
+	st.mu.Unlock()
+}
+
+func (st *evState) state() map[interface{}]interface{} {
+	m := map[interface{}]interface{}{"id": st.id, "et": st.et}
+	for k := 0; k < nSinks; k++ {
+		m[fmt.Sprintf("f%d", k)] = st.fail[k]
+	}
+	for i, kid := range st.kids {
+		m[fmt.Sprintf("n%d", i)] = kid.name
+		m[fmt.Sprintf("k%d", i)] = kindNames[kid.kind]
+		m[fmt.Sprintf("s%d", i)] = kid.state()
+	}
+	return m
+}
+
+// scn is the monitor state of one scenario. The table is complete before the
+// first event is fired and read-only afterwards; counters are atomics.
+type scn struct {
+	table     map[float64]*evState
+	loopN     int
+	failFirst bool
+	hooks     bool // hook counters are available
+
+	inside   [nSinks]int32
+	overlaps [nSinks]int64
+	invoc    int64
+	echoes   int64
+	returns  int64 // sink.beforereturn passages
+	waits    int64 // AddEventAndWait calls that returned
+
+	noiseNum  uint64
+	noiseSeed uint64
+
+	mu      sync.Mutex
+	unknown []string // echoes with an id that was never issued
+}
+
+var cur atomic.Pointer[scn]
+
+type recFunc struct{}
+
+func (recFunc) Run(_ string, _ parser.Scope, _ map[string]interface{}, tid uint64, args []interface{}) (interface{}, error) {
+	if s := cur.Load(); s != nil {
+		s.rec(tid, args)
+	}
+	return nil, nil
+}
+func (recFunc) DocString() (string, error) { return "C11 echo", nil }
+
+var setupOnce sync.Once
+
+func setup() {
+	setupOnce.Do(func() {
+		stdlib.AddStdlibPkg("c11", "C11 monitor functions")
+		stdlib.AddStdlibFunc("c11", "rec", recFunc{})
+	})
+}
+
+func (s *scn) rec(tid uint64, args []interface{}) {
+	atomic.AddInt64(&s.echoes, 1)
+	if len(args) != 9 {
+		s.addUnknown(fmt.Sprintf("rec called with %d arguments: %v", len(args), args))
+		return
+	}
+	kf, ok1 := args[0].(float64)
+	id, ok2 := args[1].(float64)
+	if !ok1 || !ok2 || kf < 0 || kf >= nSinks {
+		s.addUnknown(fmt.Sprintf("rec(%v)", args))
+		return
+	}
+	k := int(kf)
+	st := s.table[id]
+	if st == nil {
+		s.addUnknown(fmt.Sprintf("rec from sink %s with event.state.id=%v which was never issued (args %v)", sinkNames[k], id, args))
+		return
+	}
+	atomic.AddInt32(&st.echo[k], 1)
+	sum := float64(s.loopN * (s.loopN + 1) / 2)
+	want := []interface{}{kf, id, id, id, 2*id + 1, 2*(id+sum) + 1, sum, st.name, kindNames[st.kind]}
+	if !reflect.DeepEqual(args, want) {
+		st.addBad(fmt.Sprintf("sink %s on thread %d echoed (k,id,a,b,f(a),f(b+s),s,name,kind)=%v, expected %v", sinkNames[k], tid, args, want))
+	}
+}
+
+func (s *scn) addUnknown(x string) {
+	s.mu.Lock()
+	if len(s.unknown) < 8 {
+		s.unknown = append(s.unknown, x)
+	}
+	s.mu.Unlock()
+}
+
+// count is the hook observer: per-event and per-sink atomics only.
+func (s *scn) count(point string, args []interface{}) (k int, id float64, begin, ok bool) {
+	switch point {
+	case "sink.begin":
+		begin = true
+	case "sink.beforereturn":
+	default:
+		return
+	}
+	if len(args) < 2 {
+		return
+	}
+	name, _ := args[0].(string)
+	e, _ := args[1].(*engine.Event)
+	k = sinkIndex(name)
+	if k < 0 || e == nil {
+		return
+	}
+	id, _ = e.State()["id"].(float64)
+	if st := s.table[id]; st != nil {
+		if begin {
+			atomic.AddInt32(&st.begun[k], 1)
+		} else {
+			atomic.AddInt32(&st.ret[k], 1)
+		}
+	}
+	if begin {
+		atomic.AddInt64(&s.invoc, 1)
+		if atomic.AddInt32(&s.inside[k], 1) > 1 {
+			atomic.AddInt64(&s.overlaps[k], 1)
+		}
+	} else {
+		atomic.AddInt64(&s.returns, 1)
+		atomic.AddInt32(&s.inside[k], -1)
+	}
+	return k, id, begin, true
+}
+
+func (s *scn) progress() int64 {
+	return atomic.LoadInt64(&s.invoc) + atomic.LoadInt64(&s.echoes) + atomic.LoadInt64(&s.returns) + atomic.LoadInt64(&s.waits)
+}
+
+// stuck is the witness for "an invocation never comes back because
+// invocations block each other": every goroutine of this scenario that is
+// inside interpreter or scope code is parked in a lock acquisition.
+func (s *scn) stuck(pre map[uint64]bool) func() (bool, string) {
+	return func() (bool, string) {
+		ok, frame, n := c11kit.LockStuck(pre)
+		if !ok {
+			return false, ""
+		}
+		return true, fmt.Sprintf("%s|%d goroutines parked in a lock acquisition inside interpreter/scope code, none running", frame, n)
+	}
+}
+
+func (s *scn) abandon(c *core.Ctx, stream string, idx int, outcome, why string, cfg map[string]interface{}) {
+	if outcome == "stuck" {
+		frame := why
+		if i := strings.Index(why, "|"); i >= 0 {
+			frame, why = why[:i], why[i+1:]
+		}
+		c.Violation("stuck:invocations-blocked:"+frame, "sink invocations never return: "+why+" (innermost ecal frame "+frame+")", stream, idx,
+			map[string]interface{}{"scenario": cfg, "invocations_begun": atomic.LoadInt64(&s.invoc), "returned": atomic.LoadInt64(&s.returns)})
+		return
+	}
+	c.Inconclusive("scenario neither finished nor reached a stuck state within the polling bound", stream, idx, cfg)
+}
+
+func mix(z uint64) uint64 {
+	z = (z ^ (z >> 30)) * 0xBF58476D1CE4E5B9
+	z = (z ^ (z >> 27)) * 0x94D049BB133111EB
+	return z ^ (z >> 31)
+}
+
+// hook is the handler of the noise stream: counting plus a seeded perturbation
+// that depends only on (seed, event id, sink, point) – no shared clock, so the
+// handler adds no ordering between invocations beyond the per-sink counter.
+func (s *scn) hook(point string, args []interface{}) {
+	k, id, begin, ok := s.count(point, args)
+	if !ok || s.noiseNum == 0 {
+		return
+	}
+	x := s.noiseSeed ^ math.Float64bits(id)*0x9E3779B97F4A7C15 ^ uint64(k)<<3
+	if begin {
+		x ^= 0x5555
+	}
+	x = mix(x)
+	if x%1024 < s.noiseNum {
+		switch (x >> 10) % 4 {
+		case 0, 1:
+			runtime.Gosched()
+		case 2:
+			time.Sleep(time.Duration((x>>12)%50) * time.Microsecond)
+		case 3:
+			time.Sleep(time.Duration((x>>12)%200) * time.Microsecond)
+		}
+	}
+}
+
+// mismatch is one difference between the report of a cascade and the table.
+type mismatch struct {
+	cat    string // key category
+	id     float64
+	sink   int
+	gotID  float64 // content of a foreign error (NaN if not decodable)
+	gotK   int
+	gotNil bool
+	text   string
+}
+
+// decode extracts (type, detail, data) of a reported error and, if the content
+// has the shape our sinks produce, the (event id, sink) it was raised for.
+//
+// The function is excluded from race instrumentation: when the code under
+// test hands the error object of one invocation to the report of another
+// (the very thing this check looks for), the object was published without
+// synchronisation and reading it here would be flagged as a race *of the
+// harness*. The verdict on such an object is the wrong-report violation.
+//
+//go:norace
+func decode(err error) (typ, detail string, data []interface{}, cid float64, ck int, shaped bool) {
+	cid, ck = math.NaN(), -1
+	d, ok := err.(*util.RuntimeErrorWithDetail)
+	if !ok || d == nil || d.RuntimeError == nil {
+		return fmt.Sprintf("%T", err), "", nil, cid, ck, false
+	}
+	if d.Type != nil {
+		typ = d.Type.Error()
+	}
+	detail = d.Detail
+	l, ok := d.Data.([]interface{})
+	if !ok {
+		return typ, detail, []interface{}{d.Data}, cid, ck, false
+	}
+	for i := 0; i < len(l) && i < 4; i++ {
+		data = append(data, l[i])
+	}
+	if len(l) == 2 {
+		a, ok1 := l[0].(float64)
+		b, ok2 := l[1].(float64)
+		if ok1 && ok2 && typ == fmt.Sprintf("T%v", a) && detail == fmt.Sprint(a) && b >= 0 && b < nSinks && b == math.Floor(b) {
+			return typ, detail, data, a, int(b), true
+		}
+	}
+	return typ, detail, data, cid, ck, false
+}
+
+func fid(id float64) string { return strconv.FormatFloat(id, 'f', -1, 64) }
+
+// judge compares the error report of one finished cascade (root monitor) and
+// the observation counters of its member events with the expectation table.
+func (s *scn) judge(rm *engine.RootMonitor, members []*evState) []mismatch {
+	var res []mismatch
+	byID := map[float64]*evState{}
+	for _, m := range members {
+		byID[m.id] = m
+	}
+	got := map[float64]map[string]error{}
+	for _, te := range rm.AllErrors() {
+		var id float64 = math.NaN()
+		if te != nil && te.Event != nil {
+			if v, ok := te.Event.State()["id"].(float64); ok {
+				id = v
+			}
+		}
+		if te == nil || byID[id] == nil {
+			res = append(res, mismatch{cat: "report:foreign-event", id: id, sink: -1,
+				text: fmt.Sprintf("the cascade's error list holds an entry for event id %v which is not an event of this cascade: %v", id, te)})
+			continue
+		}
+		if _, dup := got[id]; dup {
+			res = append(res, mismatch{cat: "report:duplicate", id: id, sink: -1,
+				text: fmt.Sprintf("two error entries for event id %v in one cascade", id)})
+			continue
+		}
+		got[id] = te.ErrorMap
+	}
+	for _, st := range members {
+		st.mu.Lock()
+		bad := append([]string{}, st.bad...)
+		st.mu.Unlock()
+		for _, b := range bad {
+			res = append(res, mismatch{cat: "echo:local-mismatch", id: st.id, sink: -1, text: b})
+		}
+		em := got[st.id]
+		for name := range em {
+			if sinkIndex(name) < 0 {
+				res = append(res, mismatch{cat: "report:unknown-rule", id: st.id, sink: -1, text: "error reported under rule name " + name})
+			}
+		}
+		for k := 0; k < nSinks; k++ {
+			begun, echo := atomic.LoadInt32(&st.begun[k]), atomic.LoadInt32(&st.echo[k])
+			invoked := echo
+			if s.hooks {
+				invoked = begun
+				if echo < begun {
+					res = append(res, mismatch{cat: "invocation:body-skipped", id: st.id, sink: k,
+						text: fmt.Sprintf("sink %s began %d invocation(s) for event %s but its body echoed %d time(s)", sinkNames[k], begun, fid(st.id), echo)})
+				} else if echo > begun {
+					res = append(res, mismatch{cat: "echo:count-mismatch", id: st.id, sink: k,
+						text: fmt.Sprintf("sink %s began %d invocation(s) for event %s but echoed %d time(s)", sinkNames[k], begun, fid(st.id), echo)})
+				}
+			}
+			expected := invoked > 0 && st.fail[k]
+			e := em[sinkNames[k]]
+			if e == nil {
+				if expected {
+					res = append(res, mismatch{cat: "report:lost-error", id: st.id, sink: k, gotNil: true, gotID: math.NaN(), gotK: -1,
+						text: fmt.Sprintf("sink %s raised %s (event id %s) but the report of its cascade has no error for it", sinkNames[k], st.et, fid(st.id))})
+				}
+				continue
+			}
+			typ, detail, data, cid, ck, shaped := decode(e)
+			own := shaped && cid == st.id && ck == k
+			if expected && own && typ == st.et {
+				continue
+			}
+			m := mismatch{id: st.id, sink: k, gotID: cid, gotK: ck}
+			what := "did not raise"
+			if expected {
+				what = "raised " + st.et
+			} else if invoked == 0 {
+				what = "was not invoked"
+			}
+			switch {
+			case shaped && !own && ck == k:
+				m.cat = "report:foreign-error:same-sink"
+			case shaped && !own:
+				m.cat = "report:foreign-error:other-sink"
+			case own && !expected:
+				m.cat = "report:spurious-error"
+			default:
+				m.cat = "report:malformed-error"
+			}
+			m.text = fmt.Sprintf("sink %s %s for event id %s but the report for that (event, sink) is type=%q detail=%q data=%v", sinkNames[k], what, fid(st.id), typ, detail, data)
+			res = append(res, m)
+		}
+	}
+	return res
+}
+
+// report turns mismatches into violations, one per (key, scenario).
+func report(c *core.Ctx, stream string, idx int, ms []mismatch, rekey func(m mismatch) string, cfg map[string]interface{}) {
+	by := map[string][]mismatch{}
+	var keys []string
+	for _, m := range ms {
+		k := m.cat
+		if rekey != nil {
+			if r := rekey(m); r != "" {
+				k = r
+			}
+		}
+		if _, ok := by[k]; !ok {
+			keys = append(keys, k)
+		}
+		by[k] = append(by[k], m)
+	}
+	sort.Strings(keys)
+	for _, k := range keys {
+		l := by[k]
+		var ex []string
+		for i, m := range l {
+			if i >= 3 {
+				break
+			}
+			ex = append(ex, m.text)
+		}
+		c.Violation(k, l[0].text, stream, idx, map[string]interface{}{"scenario": cfg, "count": len(l), "examples": ex})
+	}
+}
+
+type noiseCfg struct {
+	workers, hosts, perHost, loopN int
+	pFail                          int // x/8
+	failFirst, fan, hooks          bool
+	noise                          uint64
+	bias                           int // 0: mixed kinds, 1: mostly a, 2: mostly b
+}
+
+func (n noiseCfg) m() map[string]interface{} {
+	return map[string]interface{}{"workers": n.workers, "hosts": n.hosts, "events_per_host": n.perHost, "loop": n.loopN,
+		"p_fail_8ths": n.pFail, "fail_on_first_error": n.failFirst, "fan_cascade": n.fan, "hooks": n.hooks, "noise_1024ths": n.noise, "kind_bias": n.bias}
+}
+
+func newEvent(r *core.Rand, id float64, kind int, pFail int, failFirst bool) *evState {
+	st := &evState{id: id, kind: kind, name: "ev-" + kindNames[kind], et: fmt.Sprintf("T%v", id)}
+	rules := kindRules[kind]
+	for i, k := range rules {
+		f := r.Chance(pFail, 8)
+		// With fail-on-first-error only the last sink of the trigger sequence may
+		// be dictated to fail in most events: what happens to the rest of a
+		// sequence after a failure is C10's matter. A quarter of the events let
+		// any sink fail; the oracle then only judges the invocations that began.
+		if failFirst && i < len(rules)-1 && !r.Chance(1, 4) {
+			f = false
+		}
+		st.fail[k] = f
+	}
+	return st
+}
+
+func fire(env *c11kit.Env, st *evState) (*engine.RootMonitor, engine.Monitor, error) {
+	ev := engine.NewEvent(st.name, kindSegs[st.kind], st.state())
+	rm := env.Erp.Processor.NewRootMonitor(nil, nil)
+	m, err := env.Erp.Processor.AddEventAndWait(ev, rm)
+	return rm, m, err
+}
+
+func members(st *evState) []*evState {
+	return append([]*evState{st}, st.kids...)
+}
+
+// noiseScenario runs one random overlap workload.
+func noiseScenario(c *core.Ctx, stream string, idx int) {
+	r := c.Rng(stream, idx)
+	n := noiseCfg{workers: r.Range(2, 16), hosts: r.Range(1, 16), perHost: c.Pick(16, 40), loopN: r.Range(2, 5),
+		pFail: []int{0, 1, 4, 4, 7, 8}[r.Intn(6)], failFirst: r.Bool(), fan: r.Chance(3, 4), hooks: true,
+		noise: []uint64{0, 64, 256, 512}[r.Intn(4)], bias: r.Intn(3)}
+	if n.hosts == 1 {
+		n.fan = true
+	}
+	if c.Race && idx%2 == 1 {
+		// every other race-build scenario runs without any hook handler so that
+		// the detector sees the code exactly as an embedding host runs it
+		n.hooks, n.noise = false, 0
+	}
+	s := &scn{table: map[float64]*evState{}, loopN: n.loopN, failFirst: n.failFirst, hooks: n.hooks,
+		noiseNum: n.noise, noiseSeed: r.U64()}
+	// ids are unique within the scenario (every scenario has its own interpreter)
+	next := 1000
+	newID := func() float64 { next++; return float64(next) }
+	pickKind := func() int {
+		switch {
+		case n.bias == 1 && !r.Chance(1, 8):
+			return kA
+		case n.bias == 2 && !r.Chance(1, 8):
+			return kB
+		}
+		return r.Intn(2)
+	}
+	hostEvents := make([][]*evState, n.hosts)
+	for h := range hostEvents {
+		for i := 0; i < n.perHost; i++ {
+			st := newEvent(r, newID(), pickKind(), n.pFail, n.failFirst)
+			hostEvents[h] = append(hostEvents[h], st)
+			s.table[st.id] = st
+		}
+	}
+	var fanRoot *evState
+	if n.fan {
+		fanRoot = newEvent(r, newID(), kFan, n.pFail, n.failFirst)
+		for i := 0; i < nFan; i++ {
+			kid := newEvent(r, newID(), pickKind(), n.pFail, n.failFirst)
+			fanRoot.kids = append(fanRoot.kids, kid)
+			s.table[kid.id] = kid
+		}
+		s.table[fanRoot.id] = fanRoot
+	}
+	src := program(n.loopN)
+	c.Begin(0, stream, idx, fmt.Sprintf("%v", n.m()))
+	defer c.End(0)
+	pre := c11kit.GoroutineSet()
+	env, err := c11kit.NewEnv("c11", src, n.workers, n.failFirst)
+	if err != nil {
+		c.Inconclusive("program did not load: "+err.Error(), stream, idx, nil)
+		return
+	}
+	defer env.Close()
+	cur.Store(s)
+	defer cur.Store(nil)
+	if n.hooks {
+		verifhook.Set(s.hook)
+		defer verifhook.Set(nil)
+	}
+	env.Start()
+	kick := c11kit.StartKicker(env.Erp.Processor)
+	var mu sync.Mutex
+	var all []mismatch
+	var notAccepted int
+	var wg sync.WaitGroup
+	run := func(list []*evState) {
+		defer wg.Done()
+		for _, st := range list {
+			rm, m, err := fire(env, st)
+			atomic.AddInt64(&s.waits, 1)
+			if m == nil || err != nil {
+				mu.Lock()
+				notAccepted++
+				mu.Unlock()
+				continue
+			}
+			ms := s.judge(rm, members(st))
+			if len(ms) > 0 {
+				mu.Lock()
+				all = append(all, ms...)
+				mu.Unlock()
+			}
+		}
+	}
+	for h := range hostEvents {
+		wg.Add(1)
+		go run(hostEvents[h])
+	}
+	if fanRoot != nil {
+		wg.Add(1)
+		go run([]*evState{fanRoot})
+	}
+	done := make(chan struct{})
+	go func() { wg.Wait(); close(done) }()
+	outcome, why := c11kit.WaitDone(done, s.progress, s.stuck(pre), time.Duration(c.Pick(30, 90))*time.Second)
+	kicks := kick.Stop()
+	if outcome != "done" {
+		// workers are parked for good: the pool cannot be finished; the
+		// goroutines of this scenario are left behind
+		s.abandon(c, stream, idx, outcome, why, n.m())
+		return
+	}
+	env.Finish()
+	s.mu.Lock()
+	for _, u := range s.unknown {
+		all = append(all, mismatch{cat: "echo:unknown-event-id", text: u})
+	}
+	s.mu.Unlock()
+	// evidence
+	var ov int64
+	for k := 0; k < nSinks; k++ {
+		o := atomic.LoadInt64(&s.overlaps[k])
+		ov += o
+		if o > 0 {
+			c.NontrivialKey(fmt.Sprintf("%s|%d|overlap in %s", stream, idx, sinkNames[k]))
+		}
+	}
+	nFail, nOK := 0, 0
+	for _, st := range s.table {
+		for _, k := range kindRules[st.kind] {
+			if st.fail[k] {
+				nFail++
+			} else {
+				nOK++
+			}
+		}
+	}
+	if !n.hooks && nFail > 0 && nOK > 0 {
+		c.NontrivialKey(fmt.Sprintf("%s|%d|bare", stream, idx))
+	}
+	c.Event("scenario."+stream, 1)
+	c.Event("events.fired", int64(len(s.table)))
+	c.Event("invocations.begun(hook)", atomic.LoadInt64(&s.invoc))
+	c.Event("invocations.echoed(rec)", atomic.LoadInt64(&s.echoes))
+	c.Event("invocations.dictated-to-fail", int64(nFail))
+	c.Event("overlap.same-sink(begin while another invocation of the sink is inside)", ov)
+	c.Event("pool.kicks", kicks)
+	if notAccepted > 0 {
+		c.Inconclusive(fmt.Sprintf("%d events were not accepted by the processor", notAccepted), stream, idx, n.m())
+	}
+	c.AddEvals(int(atomic.LoadInt64(&s.echoes)))
+	if idx < 3 {
+		c.Sample(stream, map[string]interface{}{"scenario": n.m(), "events": len(s.table), "invocations": atomic.LoadInt64(&s.echoes),
+			"same_sink_overlaps": ov, "dictated_failures": nFail, "mismatches": len(all)})
+	}
+	report(c, stream, idx, all, nil, n.m())
+}
+
+type gateCfg struct {
+	target, partner int // sinks gated for X and for Y
+	hold, until     string
+	xFail, yFail    bool
+	xKind, yKind    int
+	workers         int
+	failFirst       bool
+	loopN           int
+}
+
+func (g gateCfg) m() map[string]interface{} {
+	return map[string]interface{}{"x_sink": sinkNames[g.target], "y_sink": sinkNames[g.partner], "hold_x_at": g.hold, "until_y_passed": g.until,
+		"x_fails": g.xFail, "y_fails": g.yFail, "x_kind": kindNames[g.xKind], "y_kind": kindNames[g.yKind], "workers": g.workers,
+		"fail_on_first_error": g.failFirst, "loop": g.loopN}
+}
+
+var points = [2]string{"sink.begin", "sink.beforereturn"}
+
+const nGateCfg = 3 * 2 * 2 * 2 * 2 * 2
+
+func gateConfig(r *core.Rand, i int) gateCfg {
+	var g gateCfg
+	g.yFail = i%2 == 1
+	i /= 2
+	g.xFail = i%2 == 1
+	i /= 2
+	g.until = points[i%2]
+	i /= 2
+	g.hold = points[i%2]
+	i /= 2
+	same := i%2 == 0
+	i /= 2
+	g.target = i % 3
+	kindOf := func(sink int) int {
+		switch sink {
+		case 0:
+			return kA
+		case 2:
+			return kB
+		}
+		return r.Intn(2)
+	}
+	if same {
+		g.partner = g.target
+	} else {
+		g.partner = (g.target + 1 + r.Intn(2)) % 3
+	}
+	g.xKind, g.yKind = kindOf(g.target), kindOf(g.partner)
+	g.workers = r.Range(2, 4)
+	g.failFirst = r.Bool()
+	g.loopN = r.Range(2, 4)
+	return g
+}
+
+func waitFor(cond func() bool, d time.Duration) bool {
+	end := time.Now().Add(d)
+	for i := 0; ; i++ {
+		if cond() {
+			return true
+		}
+		if time.Now().After(end) {
+			return false
+		}
+		if i < 200 {
+			runtime.Gosched()
+		} else {
+			time.Sleep(100 * time.Microsecond)
+		}
+	}
+}
+
+// gateScenario runs two events X and Y and holds X's invocation of the target
+// sink at one hook point until Y's invocation of the partner sink has passed
+// another. Only the gated sinks may fail, so the expected report is fixed.
+func gateScenario(c *core.Ctx, stream string, idx int) {
+	r := c.Rng(stream, idx)
+	g := gateConfig(r, idx%nGateCfg)
+	x := &evState{id: 11, kind: g.xKind, name: "ev-" + kindNames[g.xKind], et: "T11"}
+	y := &evState{id: 12, kind: g.yKind, name: "ev-" + kindNames[g.yKind], et: "T12"}
+	x.fail[g.target], y.fail[g.partner] = g.xFail, g.yFail
+	s := &scn{table: map[float64]*evState{x.id: x, y.id: y}, loopN: g.loopN, failFirst: g.failFirst, hooks: true}
+	c.Begin(0, stream, idx, fmt.Sprintf("%v", g.m()))
+	defer c.End(0)
+	pre := c11kit.GoroutineSet()
+	env, err := c11kit.NewEnv("c11", program(g.loopN), g.workers, g.failFirst)
+	if err != nil {
+		c.Inconclusive("program did not load: "+err.Error(), stream, idx, nil)
+		return
+	}
+	defer env.Close()
+	cur.Store(s)
+	defer cur.Store(nil)
+	t := sched.NewTracer()
+	t.Filter = func(p string, _ []interface{}) bool { return p == "sink.begin" || p == "sink.beforereturn" }
+	t.Observer = func(ev sched.Event) { s.count(ev.Point, ev.Args) }
+	is := func(sink int, id float64) func(args []interface{}) bool {
+		return func(args []interface{}) bool {
+			if len(args) < 2 {
+				return false
+			}
+			n, _ := args[0].(string)
+			e, _ := args[1].(*engine.Event)
+			if e == nil || n != sinkNames[sink] {
+				return false
+			}
+			v, _ := e.State()["id"].(float64)
+			return v == id
+		}
+	}
+	gate := sched.NewGate(g.hold, g.until)
+	gate.Match = is(g.target, x.id)
+	gate.UntilMatch = is(g.partner, y.id)
+	t.AddGate(gate)
+	t.Install()
+	defer sched.Uninstall()
+	env.Start()
+	kick := c11kit.StartKicker(env.Erp.Processor)
+	type res struct {
+		rm  *engine.RootMonitor
+		m   engine.Monitor
+		err error
+	}
+	xdone := make(chan res, 1)
+	go func() {
+		rm, m, err := fire(env, x)
+		xdone <- res{rm, m, err}
+	}()
+	var xr res
+	xFinishedEarly := false
+	held := waitFor(func() bool {
+		if gate.Holding() {
+			return true
+		}
+		select {
+		case xr = <-xdone:
+			xFinishedEarly = true
+			return true
+		default:
+			return false
+		}
+	}, 10*time.Second)
+	if !held || xFinishedEarly {
+		gate.Release()
+		kick.Stop()
+		sched.Uninstall()
+		if !xFinishedEarly {
+			if ok, why := s.stuck(pre)(); ok {
+				s.abandon(c, stream, idx, "stuck", why, g.m())
+				return
+			}
+			c.Event("gate.infeasible", 1)
+			c.Inconclusive("X neither reached its hold point nor finished", stream, idx, g.m())
+			return
+		}
+		env.Finish()
+		c.Event("gate.infeasible", 1)
+		c.Inconclusive("X finished without passing its hold point", stream, idx, g.m())
+		return
+	}
+	ydone := make(chan res, 1)
+	go func() {
+		rm, m, err := fire(env, y)
+		ydone <- res{rm, m, err}
+	}()
+	var yr res
+	both := make(chan struct{})
+	forced := false
+	go func() {
+		yr = <-ydone
+		if gate.Holding() {
+			// Y finished without passing the until point: not a schedule of this program
+			gate.Release()
+			forced = true
+		}
+		xr = <-xdone
+		close(both)
+	}()
+	outcome, why := c11kit.WaitDone(both, s.progress, s.stuck(pre), time.Duration(c.Pick(30, 90))*time.Second)
+	c.Event("pool.kicks", kick.Stop())
+	if outcome != "done" {
+		gate.Release()
+		sched.Uninstall()
+		s.abandon(c, stream, idx, outcome, why, g.m())
+		return
+	}
+	yrm, ym, yerr := yr.rm, yr.m, yr.err
+	env.Finish()
+	sched.Uninstall()
+	if forced || xr.m == nil || xr.err != nil || ym == nil || yerr != nil {
+		c.Event("gate.infeasible", 1)
+		c.Inconclusive("gate pair infeasible or event not accepted", stream, idx, g.m())
+		return
+	}
+	c.Event("gate.feasible", 1)
+	c.Event("scenario."+stream, 1)
+	c.Event("invocations.begun(hook)", atomic.LoadInt64(&s.invoc))
+	c.Event("invocations.echoed(rec)", atomic.LoadInt64(&s.echoes))
+	c.AddEvals(int(atomic.LoadInt64(&s.echoes)))
+	sig := sched.Signature(t.Snapshot(), nil)
+	c.Nontrivial(core.Hash64(fmt.Sprintf("gate|%d|%x", idx%nGateCfg, sig)))
+	if idx%41 == 0 {
+		c.Sample(stream, map[string]interface{}{"scenario": g.m(), "trace_events": t.Len(), "signature": fmt.Sprintf("%x", sig)})
+	}
+	ms := append(s.judge(xr.rm, members(x)), s.judge(yrm, members(y))...)
+	s.mu.Lock()
+	for _, u := range s.unknown {
+		ms = append(ms, mismatch{cat: "echo:unknown-event-id", text: u})
+	}
+	s.mu.Unlock()
+	// Known deviation "the result variable of a sink is shared by its
+	// invocations": under this gate (X parked after its body, Y runs the same
+	// sink to its end) it predicts exactly one wrong outcome, X reporting what Y
+	// produced. Anything else keeps its generic key.
+	var rekey func(m mismatch) string
+	if g.target == g.partner && g.hold == "sink.beforereturn" && g.until == "sink.beforereturn" && g.xFail != g.yFail && len(ms) == 1 {
+		m := ms[0]
+		predicted := m.id == x.id && m.sink == g.target &&
+			((g.yFail && m.gotID == y.id && m.gotK == g.partner) || (!g.yFail && m.gotNil))
+		if predicted {
+			rekey = func(mismatch) string { return "report:wrong-outcome:shared-result-variable" }
+		}
+	}
+	report(c, stream, idx, ms, rekey, g.m())
+}
+
 // Run is the check.
 func Run(c *core.Ctx) {
+	c.Note("rule", "noise stream: one random scenario per index = (2..16 workers, 1..16 host goroutines x N events with fresh ids fired through AddEventAndWait on their own root monitors, optional cascade fanning out 64 children through addEvent, failure probability in {0,1/8,1/2,7/8,1}, both settings of fail-on-first-error, kind bias, seeded perturbation at sink.begin/sink.beforereturn); gate stream: all 96 combinations of (gated sink, same/other partner sink, hold point, until point, X fails, Y fails) holding X's invocation until Y's passed its point. Every invocation is one evaluation; judged per unique event id: echoed locals/function results/event fields and the (type, detail, data) reported for exactly its (event, sink). Non-trivial = a noise scenario and sink for which the hook counters saw a second invocation of the same sink begin while another was inside (distinct per scenario and sink; race-build scenarios without hooks count once when they mix failing and succeeding invocations), or a feasible gate pair with a distinct interleaving signature. Excluded by generation: equal priorities, self-suppression, rules with several patterns, events sharing a name across kinds, global writes (C12), what follows a failing sink under fail-on-first-error (only invocations that began are judged).")
+	setup()
+	nNoise := c.Pick(48, 1600)
+	nGate := c.Pick(nGateCfg, 30*nGateCfg)
+	if c.Race {
+		nNoise = c.Pick(16, 320)
+		nGate = c.Pick(nGateCfg, 4*nGateCfg)
+	}
+	for i := 0; i < nGate; i++ {
+		if c.Mine("gate", i) {
+			gateScenario(c, "gate", i)
+		}
+	}
+	for i := 0; i < nNoise; i++ {
+		if c.Mine("noise", i) {
+			noiseScenario(c, "noise", i)
+		}
+	}
 }
